@@ -129,7 +129,7 @@ def run(ctx):
              ("MC_small.cfg", PKT + CT + ENV + FLAP, "as built: 1 MAC, 2 IPs, all kinds, flapping, finer time", False),
              ("LIVE_asbuilt.cfg", [], "as built, liveness (EventuallyForgotten under WF of time)", False),
              ("LIVE_strict.cfg", [], "Strict, liveness", False)]
-  nsim = 40 if quick else 400
+  nsim = 40 if quick else 300
   sims = [("EX_sim_scaled.cfg", "sim_scaled", 61, 1), ("EX_sim_test.cfg", "sim_test", 101, 2)]
   if not quick:
     sims.append(("EX_sim_real.cfg", "sim_real", 101, 3))
@@ -160,7 +160,7 @@ def run(ctx):
     r.prints = []
     if not raws:
       raise tlc.TLCError("%s exported no behaviours" % j[0])
-    behs = sample(raws, 1500 if quick else 12000, ctx.seed, j[1])
+    behs = sample(raws, 1500 if quick else 6000, ctx.seed, j[1])
     total = len(raws)
     del raws
     params = dict(CFG[key], variant=variant)
@@ -198,8 +198,8 @@ def run(ctx):
   ctx.notes["spec_actions_replayed"] = exercised
 
   # ---- 3. code -> spec
-  plans = [("test", "Trace_test.cfg", 40 if quick else 600, 140), ("scaled", "Trace_scaled.cfg", 40 if quick else 600, 100),
-           ("real", "Trace_real.cfg", 10 if quick else 100, 700)]
+  plans = [("test", "Trace_test.cfg", 40 if quick else 400, 140), ("scaled", "Trace_scaled.cfg", 40 if quick else 400, 100),
+           ("real", "Trace_real.cfg", 10 if quick else 60, 700)]
   for which, cfg, ntr, n in plans:
     traces = core.run_driver("props.X08:drive", [(ctx.seed * 100003 + i, n, which) for i in range(ntr)])
     bad = corrupt(traces)
